@@ -87,6 +87,10 @@ def Frag.lastChild (f : Frag) : Option Node := f.content.getLast?
 
 /-! ### from_array / from_ -/
 
+/-- the join test of the loop, `i and is_text(node) and array[i - 1].same_markup(node)`, with `pre = array[0:i]` -/
+def joinTest (pre : List Node) (node : Node) : Bool :=
+  !pre.isEmpty && node.isText && (match pre.getLast? with | some p => p.sameMarkup node | none => false)
+
 /-- the `for i in range(len(array))` loop of `Fragment.from_array`.  `pre = array[0:i]` (so `i` is truthy iff `pre`
     is non-empty and `array[i-1]` is its last element), the list argument is `array[i:]`; state: `joined`
     (`none` = Python's `None`; it is never the empty list, being `array[0:i]` with `i â‰¥ 1` when created) and `size`.
@@ -95,8 +99,7 @@ def fromArrayLoop (pre : List Node) : List Node â†’ Option (List Node) â†’ Int â
   | [], joined, size => .ok (joined, size)
   | node :: rest, joined, size =>
     let size := size + node.size                                  -- size += node.node_size
-    if !pre.isEmpty && node.isText &&
-        (match pre.getLast? with | some p => p.sameMarkup node | none => false) then
+    if joinTest pre node then
       let j := joined.getD pre                                    -- if not joined: joined = array[0:i]
       match j.getLast?, node with                                 -- last = joined[-1]
       | some (.text ls _), .text s m =>                           -- joined[-1] = node.with_text(last.text + node.text)
